@@ -15,6 +15,10 @@
 (* the spec abstracts from: the intended behaviour is that the text        *)
 (* written for a value is one field that reads back as that value.         *)
 (*                                                                         *)
+(* The delimiter set of a scenario (delim) is likewise a parameter the     *)
+(* operations do not depend on: whatever characters separate the fields,   *)
+(* the field structure and every operation below are the same.             *)
+(*                                                                         *)
 (* Generator state: cur = the anchor line (1-based; 1 when no anchor is    *)
 (* set, so that row offsets are then absolute), anch = an anchor is set.   *)
 (* Rows given to the operations are offsets from cur and may be negative.  *)
